@@ -1,9 +1,12 @@
 """C19 -- plug-in lookup is deterministic, case-insensitive and side-effect free.
 
-Correspondence: operation sequences (add_plugin normal/prioritised in varying case, get_plugin,
-is_supported with bare / qualified / mis-cased / unknown names) on one or two real PluginManager
-instances; answers (plug-in identity or exception class) and the final plugins() order of every
-manager are compared exactly with Model/Registry.v inside Coq.
+Correspondence: operation sequences (add_plugin normal/prioritised in varying case with stub plug-ins, fresh
+instances of the real built-in plug-ins and re-used objects; get_plugin / is_supported with bare, qualified,
+mis-cased, multi-slash, empty-part, 'default', external/ and unknown requests; plugins(); the external
+optimizer's constructor) on one to three real PluginManager instances and on every plug-in type; answers
+(plug-in identity or exception class), the is_supported calls the stubs received, the plugins() listing of
+every manager and type at the end and of a manager created afterwards are compared exactly with
+Model/Registry.v inside Coq; an independent Python reading of the property text judges the same observations.
 """
 from __future__ import annotations
 
@@ -16,47 +19,91 @@ THEOREM_FILE = "Props/C19.v"
 CHK_MODULE = "Check.Chk_C19"
 CASE_TYPE = "Chk_C19.case"
 CHECK_FN = "Chk_C19.check_case"
-HEADER = "From Ropt Require Import Model.Registry Gen.Generated."
-SHARD_SIZE = 800
+SHARD_SIZE = 700
 PARALLEL = True
 EXHAUSTIVE = {"quick": True, "thorough": True}
-RULE = ("exhaustive: every operation sequence of length <= 3 (quick) / <= 4 (thorough) over a 22-letter alphabet "
-        "(8 add_plugin variants: names A/a/B/N x normal/prioritised; 10 get_plugin and 4 is_supported requests with bare, "
-        "qualified, mis-cased, unknown and external/ names) on one manager of type 'optimizer', with a second untouched "
-        "manager observed for isolation; plus sampled sequences of length <= 8 addressed to two managers and to every "
-        "other plug-in type. Non-trivial = the sequence contains a successful add_plugin and a later lookup; distinct = "
-        "distinct (type, managers, sequence).")
+RULE = ("streams: E1 exhaustive -- every operation sequence of length <= 3 (quick) / <= 4 (thorough) over a 20-letter "
+        "alphabet (8 add_plugin variants: names A/a/B/N x normal/prioritised; 8 get_plugin and 4 is_supported requests: "
+        "bare, qualified, mis-cased, unknown, external/) on manager 0 of two managers, type 'optimizer' (lookup-only "
+        "sequences only up to length 2); E6 exhaustive -- every sequence of length <= 3 over 6 operations x 2 managers "
+        "(same name bound to different plug-ins in the two managers); E2 -- every add_plugin sequence of length <= 2 "
+        "(<= 3 thorough) over 12 registrations (stubs incl. a case-sensitive one and one shadowing the built-in methods, "
+        "fresh instances of the real scipy/external plug-ins, duplicates of built-in names, empty name) followed by a "
+        "probe block (plugins(), get_plugin and is_supported of 12 requests), plus sampled longer ones; E3 -- sampled "
+        "sequences of length 3..12 over all six plug-in types and one to three managers with names and plug-ins "
+        "decoupled and objects re-used; E4 -- for every type every built-in method name (and unknown ones) in three "
+        "casings, bare, qualified and through external/, incl. the external optimizer's constructor; E7 -- rejected "
+        "registration in the middle of a sequence followed by the full probe block.  Non-trivial = the sequence contains "
+        "a successful add_plugin and a later lookup, or probes the built-in tables; distinct = distinct case.")
 ASSUMPTIONS = [
-    "a stub plug-in's is_supported is a lower-cased table lookup and its allows_discovery a constant (the stubs are written that way)",
-    "the entry-point set of a fresh PluginManager (names, order) is an input of each case; the built-in plug-ins' method tables are the generated ones",
+    "a stub plug-in's is_supported is a table lookup (lower-cased, or verbatim for the case-sensitive stub) and its allows_discovery a constant (the stubs are written that way)",
+    "the entry-point set of a fresh PluginManager (names, order, per type) is an input of each case; the built-in plug-ins' method tables are the generated ones",
+    "names and requests are printable ASCII (str.lower is modelled on ASCII only)",
 ]
 TRUSTED = ["importlib.metadata entry points of the installed ropt distribution (order of the initial registry is observed, not modelled)"]
 
-STUBS = {"A": ({"a"}, True), "B": ({"a", "b"}, True), "N": ({"b", "slsqp", "mean", "uniform"}, False)}
-STUB_ID = {"A": 10, "B": 11, "N": 12}
-
-BUILTIN = {
-    "ExternalOptimizerPlugin": "ext 0",
-    "SciPyOptimizerPlugin": "tbl 1 scipy_optimizer_plugin_methods true",
-    "SciPySamplerPlugin": "tbl 2 scipy_sampler_plugin_methods true",
-    "DefaultRealizationFilterPlugin": "tbl 3 realization_filter_methods true",
-    "DefaultFunctionEstimatorPlugin": "tbl 4 function_estimator_methods true",
-    "DefaultPlanHandlerPlugin": "tbl 5 plan_handler_methods true",
-    "DefaultPlanStepPlugin": "tbl 6 plan_step_methods true",
+TYPES = ["optimizer", "sampler", "realization_filter", "function_estimator", "plan_handler", "plan_step"]
+SHADOW = ["default", "slsqp", "mean", "uniform", "tracker", "optimizer", "sort-objective"]
+# tag -> (methods, discoverable, case-sensitive)
+STUBS = {
+    "A": (["a"], True, False),
+    "B": (["a", "b"], True, False),
+    "N": (["b"] + SHADOW[1:], False, False),
+    "C": (["B", "a", "x/Y"], True, True),
+    "D": (["a"] + SHADOW, True, False),
+    "Z": (["a"], True, False),           # like A, but the object is falsy (len() == 0); only used by FALSY_STREAM
 }
-BUILTIN_ID = {k: int(v.split()[1]) for k, v in BUILTIN.items()}
-
-ADD_OPS = [("add", n, pr) for n in ("A", "a", "B", "N") for pr in (False, True)]
-OPT_LOOKUPS = [("get", m) for m in ("a", "b", "A/a", "b/B", "n/b", "slsqp", "scipy/SLSQP", "zzz", "A/zzz",
-                                    "external/slsqp")] + [("sup", m) for m in ("a", "B", "n/B", "zzz")]
-TYPE_LOOKUPS = {
-    "optimizer": ["SLSQP", "External/scipy/slsqp", "external/a", "external/A/a", "default", "scipy/default", "external/external/slsqp", "a/", "/a", ""],
-    "sampler": ["uniform", "SCIPY/Sobol", "n/uniform", "scipy/zzz", "default"],
-    "realization_filter": ["sort-objective", "Default/CVAR-constraint", "mean"],
-    "function_estimator": ["mean", "default/StdDev", "n/mean", "default"],
-    "plan_handler": ["tracker", "default/Store", "a"],
-    "plan_step": ["optimizer", "Default/evaluator", "b"],
+BUILTIN_K = {
+    "ExternalOptimizerPlugin": 0, "SciPyOptimizerPlugin": 1, "SciPySamplerPlugin": 2,
+    "DefaultRealizationFilterPlugin": 3, "DefaultFunctionEstimatorPlugin": 4,
+    "DefaultPlanHandlerPlugin": 5, "DefaultPlanStepPlugin": 6,
 }
+UNKNOWN_K = 9
+STD_INIT = [[["external", "ExternalOptimizerPlugin"], ["scipy", "SciPyOptimizerPlugin"]],
+            [["scipy", "SciPySamplerPlugin"]], [["default", "DefaultRealizationFilterPlugin"]],
+            [["default", "DefaultFunctionEstimatorPlugin"]], [["default", "DefaultPlanHandlerPlugin"]],
+            [["default", "DefaultPlanStepPlugin"]]]
+TYPE_K = [1, 2, 3, 4, 5, 6]           # class index of the type's default built-in plug-in
+MAX_OPS = 45                            # ids: built-in instances 50+op index, stubs 100+op index
+
+# ---- request pools ------------------------------------------------------------------------------------------
+COMMON = ["a", "A", "b", "B", "zzz", "", "A/a", "a/A", "b/B", "B/b", "n/b", "N/B", "A/zzz", "zz/a", "a/", "/a", "/",
+          "a//a", "c/x/Y", "C/x/y", "c/B", "c/b", "c/a", "x/Y", "d/default", "D/a", "default", "s2/slsqp", "x/slsqp",
+          "x/a", "X/scipy/SLSQP"]
+TYPE_POOL = [
+    ["slsqp", "SLSQP", "scipy/SLSQP", "SciPy/default", "scipy/a", "n/slsqp", "external/slsqp", "External/scipy/slsqp",
+     "external/a", "external/A/a", "external/external/slsqp", "external/n/b", "external/", "external//slsqp",
+     "external/default", "external/scipy/default", "external/zzz", "EXTERNAL/Nelder-Mead", "scipy/scipy/slsqp",
+     "external/s2/slsqp", "external/d/default"],
+    ["uniform", "SCIPY/Sobol", "n/uniform", "scipy/zzz", "scipy/default", "sobol", "external/sobol", "s2/Halton"],
+    ["sort-objective", "Default/CVAR-constraint", "mean", "default/default", "n/sort-objective", "Sort-Constraint"],
+    ["mean", "default/StdDev", "n/mean", "default/default", "STDDEV", "s2/mean"],
+    ["tracker", "default/Store", "default/zzz", "n/tracker", "Store"],
+    ["optimizer", "Default/evaluator", "n/optimizer", "EVALUATOR", "default/default"],
+]
+METHODS = [
+    ["bfgs", "cg", "cobyla", "default", "differential_evolution", "l-bfgs-b", "nelder-mead", "newton-cg", "powell",
+     "slsqp", "tnc", "trust-constr", "basinhopping", "sobol", "mean"],
+    ["default", "halton", "lhs", "norm", "sobol", "truncnorm", "uniform", "random", "slsqp"],
+    ["sort-objective", "sort-constraint", "cvar-objective", "cvar-constraint", "default", "sort", "mean"],
+    ["default", "mean", "stddev", "median", "tracker"],
+    ["store", "tracker", "default", "optimizer"],
+    ["evaluator", "optimizer", "default", "store"],
+]
+FWD_SAFE = ["external/slsqp", "external/scipy/slsqp", "EXTERNAL/SciPy/SLSQP", "external/zzz", "external/scipy/zzz",
+            "external/default", "external/scipy/default", "external/Nelder-Mead", "external/a", "external/A/a",
+            "external/d/default", "external/s2/slsqp", "external/n/b", "external/BFGS", "external/sobol"]
+
+ADD_COUPLED = [["add", n, ["stub", n.upper()], pr] for n in ("A", "a", "B", "N") for pr in (False, True)]
+E1_LOOKUPS = [["get", m] for m in ("a", "b", "A/a", "b/B", "n/b", "slsqp", "zzz", "external/a")] + \
+             [["sup", m] for m in ("a", "B", "n/B", "zzz")]
+E6_OPS = [["add", "A", ["stub", "A"], False], ["add", "a", ["stub", "B"], True], ["add", "B", ["stub", "B"], False],
+          ["get", "a"], ["get", "A/a"], ["sup", "a/b"]]
+E2_ADDS = [["add", "A", ["stub", "A"], False], ["add", "a", ["stub", "B"], True], ["add", "B", ["stub", "B"], False],
+           ["add", "N", ["stub", "N"], True], ["add", "c", ["stub", "C"], False], ["add", "d", ["stub", "D"], True],
+           ["add", "D", ["stub", "D"], False], ["add", "SciPy", ["stub", "A"], True], ["add", "EXTERNAL", ["stub", "D"], False],
+           ["add", "s2", ["builtin", 1], True], ["add", "X", ["builtin", 0], False], ["add", "", ["stub", "B"], False]]
+ADD_NAMES = ["A", "a", "B", "N", "c", "C", "d", "D", "scipy", "SciPy", "default", "Default", "EXTERNAL", "", "x/y", "s2", "X"]
 
 
 def _seqs(alphabet, n):
@@ -64,39 +111,199 @@ def _seqs(alphabet, n):
         yield from itertools.product(alphabet, repeat=L)
 
 
-def gen_cases(tier, rng):
-    maxlen = 3 if tier == "quick" else 4
-    alpha = ADD_OPS + OPT_LOOKUPS
-    for seq in _seqs(alpha, maxlen):
-        yield {"type": "optimizer", "managers": 2, "ops": [[0, list(op)] for op in seq]}
-    n_rand = 600 if tier == "quick" else 12000
-    types = list(TYPE_LOOKUPS)
-    for _ in range(n_rand):
-        t = rng.choice(types)
-        look = [("get", m) for m in TYPE_LOOKUPS[t]] + [("sup", m) for m in TYPE_LOOKUPS[t]] + \
-               [("get", m) for m in ("a", "B", "A/a", "n/b")]
+def _mk(stream, managers, ops):
+    return {"stream": stream, "managers": managers, "ops": [[i, t, list(op)] for i, t, op in ops][:MAX_OPS]}
+
+
+def _probe(rng, t, k):
+    pool = COMMON + TYPE_POOL[t]
+    ms = rng.sample(pool, min(k, len(pool)))
+    out = [["list"]]
+    for m in ms:
+        out += [["get", m], ["sup", m]]
+    return out
+
+
+def _rand_add(rng, t, n_prev_adds):
+    name = rng.choice(ADD_NAMES)
+    r = rng.random()
+    if r < 0.62:
+        plug = ["stub", rng.choice("ABNCD")]
+    elif r < 0.80:
+        plug = ["builtin", rng.choice([TYPE_K[t], TYPE_K[t], 0 if t == 0 else TYPE_K[t]])]
+    elif n_prev_adds:
+        plug = ["reuse", rng.choice(n_prev_adds)]
+    else:
+        plug = ["stub", "B"]
+    return ["add", name, plug, rng.random() < 0.45]
+
+
+def _gen_random(rng, stream, n, types_per_case, maxlen):
+    for _ in range(n):
         nm = rng.choice([1, 2, 2, 3])
-        ops = []
-        for _ in range(rng.randint(2, 8)):
-            op = rng.choice(ADD_OPS) if rng.random() < 0.4 else rng.choice(look)
-            ops.append([rng.randrange(nm), list(op)])
-        yield {"type": t, "managers": nm, "ops": ops}
+        ts = rng.sample(range(6), rng.randint(1, types_per_case))
+        if rng.random() < 0.5 and 0 not in ts:
+            ts[0] = 0
+        ops, adds = [], []
+        for k in range(rng.randint(3, maxlen)):
+            t = rng.choice(ts)
+            r = rng.random()
+            if r < 0.38:
+                op = _rand_add(rng, t, adds)
+                if op[2][0] != "reuse":
+                    adds.append(k)
+            elif r < 0.45:
+                op = ["list"]
+            elif r < 0.47 and t == 0:
+                op = ["fwd", rng.choice(FWD_SAFE)]
+            else:
+                m = rng.choice(COMMON + TYPE_POOL[t] + TYPE_POOL[t])
+                op = [rng.choice(["get", "get", "sup"]), m]
+            ops.append([rng.randrange(nm), t, op])
+        yield _mk(stream, nm, ops)
 
 
-def _make_stub(ptype, tag):
+def _cased(m, how):
+    return m if how == 0 else m.upper() if how == 1 else m.title()
+
+
+def _gen_tables():
+    for t in range(6):
+        plug = "scipy" if t < 2 else "default"
+        for how in range(3):
+            ops = [[0, t, ["list"]]]
+            for m in METHODS[t]:
+                mm = _cased(m, how)
+                ops += [[0, t, ["get", mm]], [0, t, ["sup", mm]], [0, t, ["get", _cased(plug, (how + 1) % 3) + "/" + mm]],
+                        [0, t, ["sup", plug + "/" + mm]]]
+                if t == 0:
+                    ops += [[0, t, ["sup", "external/" + mm]], [0, t, ["get", "External/" + plug + "/" + mm]]]
+            for k in range(0, len(ops), 40):
+                yield _mk("E4-tables", 1, ops[k:k + 40])
+    # the external optimizer's constructor, before and after registrations that must not matter to it
+    pre = [[0, 0, ["add", "A", ["stub", "A"], True]], [1, 0, ["add", "d", ["stub", "D"], True]],
+           [0, 0, ["add", "s2", ["builtin", 1], False]]]
+    for with_pre in (False, True):
+        ops = list(pre) if with_pre else []
+        for m in FWD_SAFE:
+            ops += [[0, 0, ["fwd", m]], [0, 0, ["sup", m]]]
+        yield _mk("E4-forward", 2, ops)
+
+
+def _gen_rejected(rng, n):
+    """a rejected registration (plain / prioritised duplicate, in another casing, of a built-in or an added name) in
+    the middle of a sequence; everything observable must be as if it had not happened."""
+    for _ in range(n):
+        t = rng.choice([0, 0, 0, 1, 2, 3, 4, 5])
+        nm = rng.choice([1, 2])
+        first = [_rand_add(rng, t, []) for _ in range(rng.randint(1, 3))]
+        for a in first:
+            if a[2][0] == "reuse":
+                a[2] = ["stub", "A"]
+        names = [a[1] for a in first] + [n_ for n_, _ in STD_INIT[t]]
+        dup = rng.choice(names)
+        dup = rng.choice([dup, dup.upper(), dup.lower(), dup.title()])
+        rej = ["add", dup, ["stub", rng.choice("ABD")], rng.random() < 0.7]
+        ops = [[0, t, a] for a in first] + [[0, t, rej]] + [[0, t, o] for o in _probe(rng, t, 9)]
+        if nm == 2:
+            ops += [[1, t, o] for o in _probe(rng, t, 3)]
+        yield _mk("E7-rejected", nm, ops)
+
+
+E8_REQ = ["slsqp", "SLSQP", "default", "a", "b", "B", "A/a", "a/b", "d/default", "scipy/slsqp", "external/slsqp",
+          "external/a", "c/B", "x/Y", "/a", "zzz"]
+E8_PRE = [[], [["add", "A", ["stub", "A"], False]], [["add", "d", ["stub", "D"], False]]]
+E8_ADD = [["add", "a", ["stub", "B"], True], ["add", "A", ["stub", "A"], False], ["add", "D", ["stub", "D"], True],
+          ["add", "N", ["stub", "N"], True], ["add", "SciPy", ["stub", "D"], True], ["add", "s2", ["builtin", 1], True],
+          ["add", "c", ["stub", "C"], False], ["add", "", ["stub", "B"], True]]
+
+
+def _gen_stale(quick, rng):
+    """the same request (or listing) before and after a registration on the same manager, and on a second manager:
+    anything remembered from the first answer shows in the second"""
+    kinds = [("get", "get"), ("sup", "get"), ("list", "list")] + ([] if quick else [("sup", "sup"), ("get", "sup")])
+    for m in E8_REQ:
+        for pre in E8_PRE:
+            for add in E8_ADD:
+                for k1, k2 in kinds:
+                    if k1 == "list" and m not in ("a", "slsqp"):
+                        continue
+                    o1 = ["list"] if k1 == "list" else [k1, m]
+                    o2 = ["list"] if k2 == "list" else [k2, m]
+                    other = rng.choice([0, 1])
+                    ops = [[0, 0, o] for o in pre] + [[0, 0, o1], [other, 0, add], [0, 0, o2], [1, 0, o2]]
+                    yield _mk("E8-stale", 2, ops)
+
+
+# A plug-in object that is falsy (defines __len__/__bool__) is skipped by `if plugin and ...` in get_plugin: it can be
+# discovered by a bare name but never addressed as 'name/method' (reported as a finding; /repo HEAD alarms when enabled).
+FALSY_STREAM = False
+
+
+def gen_cases(tier, rng):
+    """all streams, then shuffled (seeded) so that the expensive long cases are spread evenly over the Coq shards"""
+    cases = list(_gen_streams(tier, rng))
+    rng.shuffle(cases)
+    return cases
+
+
+def _gen_streams(tier, rng):
+    quick = tier == "quick"
+    # E1
+    maxlen = 3 if quick else 4
+    alpha = ADD_COUPLED + E1_LOOKUPS
+    for seq in _seqs(alpha, maxlen):
+        if len(seq) > 2 and all(op[0] != "add" for op in seq):
+            continue
+        yield _mk("E1-exhaustive", 2, [[0, 0, op] for op in seq])
+    # E6
+    alpha6 = [[i, 0, op] for i in (0, 1) for op in E6_OPS]
+    for seq in _seqs(alpha6, 3):
+        yield _mk("E6-two-managers", 2, seq)
+    # E2
+    for seq in _seqs(E2_ADDS, 2 if quick else 3):
+        yield _mk("E2-adds-probe", 1, [[0, 0, op] for op in seq] + [[0, 0, o] for o in _probe(rng, 0, 12)])
+    for _ in range(300 if quick else 4000):
+        seq = [rng.choice(E2_ADDS) for _ in range(rng.randint(3, 6))]
+        yield _mk("E2-adds-probe", 1, [[0, 0, op] for op in seq] + [[0, 0, o] for o in _probe(rng, 0, 12)])
+    # E4
+    yield from _gen_tables()
+    # E3 / E5
+    yield from _gen_random(rng, "E3-cross-type", 450 if quick else 8000, 3, 12)
+    yield from _gen_random(rng, "E5-one-type", 450 if quick else 8000, 1, 10)
+    # E7
+    yield from _gen_rejected(rng, 300 if quick else 5000)
+    # E8
+    yield from _gen_stale(quick, rng)
+    if FALSY_STREAM:
+        for m in ("z/a", "a", "Z/A"):
+            yield _mk("E9-falsy", 1, [[0, 0, ["add", "z", ["stub", "Z"], False]], [0, 0, ["get", m]], [0, 0, ["sup", m]]])
+
+
+# ---- driver ---------------------------------------------------------------------------------------------------
+_LOG: list = []
+
+
+def _make_stub(ptype, tag, pid):
     from ropt.plugins._manager import _PLUGIN_TYPES
     base = _PLUGIN_TYPES[ptype]
-    methods, disc = STUBS[tag]
+    methods, disc, exact = STUBS[tag]
+    methods = frozenset(methods)
 
     class Stub(base):  # type: ignore[misc, valid-type]
         def __init__(self):
-            self.tag = tag
+            self.pid = pid
 
         def create(self, *a, **k):
             return None
 
+        if tag == "Z":
+            def __len__(self):
+                return 0
+
         def is_supported(self, method):
-            return method.lower() in methods
+            _LOG.append([pid, method])
+            return (method if exact else method.lower()) in methods
 
         @property
         def allows_discovery(self):
@@ -105,50 +312,166 @@ def _make_stub(ptype, tag):
     return Stub()
 
 
-def _ident(p):
-    tag = getattr(p, "tag", None)
-    if tag is not None:
-        return STUB_ID[tag]
-    return BUILTIN_ID.get(type(p).__name__, 99)
+def _tails(m):
+    out = [m]
+    while "/" in m:
+        m = m.split("/", 1)[1]
+        out.append(m)
+    return out
+
+
+def _fwd(method):
+    from ropt.config.enopt import EnOptConfig
+    from ropt.exceptions import ConfigError
+    from ropt.plugins.optimizer.external import ExternalOptimizerPlugin
+    cfg = EnOptConfig.model_validate({"variables": {"initial_values": [0.0, 1.0]}, "optimizer": {"method": method}})
+    try:
+        ExternalOptimizerPlugin().create(cfg, lambda *a, **k: None)
+    except ConfigError:
+        return ["err"]
+    return ["ok"]
 
 
 def run_impl(case):
     from ropt.exceptions import ConfigError
     from ropt.plugins import PluginManager
-    t = case["type"]
+    if len(case["ops"]) > MAX_OPS:
+        raise ValueError("sequence too long for the id scheme")
     fresh = PluginManager()
-    init = [[n, type(p).__name__] for n, p in fresh.plugins(t)]
+    init = [[[n, type(p).__name__] for n, p in fresh.plugins(t)] for t in TYPES]
+    classes = {BUILTIN_K.get(type(p).__name__, UNKNOWN_K): p for t in TYPES for _, p in fresh.plugins(t)}
     mans = [PluginManager() for _ in range(case["managers"])]
-    answers = []
-    for i, op in case["ops"]:
-        pm = mans[i]
+    made: dict = {}          # op index -> (object, id)
+    ids: dict = {}           # id(object) -> id given by the driver
+    keep = []
+
+    def ident(p):
+        if id(p) in ids:
+            return ids[id(p)]
+        return BUILTIN_K.get(type(p).__name__, UNKNOWN_K)
+
+    answers, consult, strings = [], [], set()
+    for idx, (i, ti, op) in enumerate(case["ops"]):
+        pm, t = mans[i], TYPES[ti]
+        del _LOG[:]
         try:
             if op[0] == "add":
-                pm.add_plugin(t, op[1], _make_stub(t, op[1].upper()), prioritize=bool(op[2]))
+                spec = op[2]
+                if spec[0] == "reuse":
+                    obj, pid = made[spec[1]]
+                elif spec[0] == "stub":
+                    pid = 100 + idx
+                    obj = _make_stub(t, spec[1], pid)
+                else:
+                    pid = 50 + idx
+                    obj = type(classes[spec[1]])()
+                made[idx] = (obj, pid)
+                ids[id(obj)] = pid
+                keep.append(obj)
+                del _LOG[:]
+                pm.add_plugin(t, op[1], obj, prioritize=bool(op[3]))
                 answers.append(["ok"])
             elif op[0] == "get":
-                answers.append(["plug", _ident(pm.get_plugin(t, op[1]))])
-            else:
+                strings.update(_tails(op[1]))
+                answers.append(["plug", ident(pm.get_plugin(t, op[1]))])
+            elif op[0] == "sup":
+                strings.update(_tails(op[1]))
                 r = pm.is_supported(t, op[1])
                 answers.append(["bool", bool(r)] if isinstance(r, bool) else ["other", repr(r)])
+            elif op[0] == "list":
+                answers.append(["list", [[n, ident(p)] for n, p in pm.plugins(t)]])
+            elif op[0] == "fwd":
+                strings.update(_tails(op[1]))
+                answers.append(_fwd(op[1]))
+            else:
+                raise ValueError(op[0])
         except ConfigError:
             answers.append(["err"])
-    final = [[n for n, _ in pm.plugins(t)] for pm in mans]
-    after = [[n, type(p).__name__] for n, p in PluginManager().plugins(t)]
-    return {"init": init, "answers": answers, "final": final, "fresh_after": after}
+        consult.append([list(e) for e in _LOG])
+    final = [[[[n, ident(p)] for n, p in pm.plugins(t)] for t in TYPES] for pm in mans]
+    after = [[[n, ident(p)] for n, p in PluginManager().plugins(t)] for t in TYPES]
+    # what the built-in plug-ins themselves say about every (sub)request of the case (external excluded: the oracle
+    # reads it from the property text)
+    says = {str(k): {s: bool(p.is_supported(s)) for s in sorted(strings)} for k, p in classes.items() if k != 0}
+    return {"init": init, "answers": answers, "consult": consult, "final": final, "fresh_after": after, "says": says}
 
 
-def _plugin_term(tag):
-    methods, disc = STUBS[tag]
-    return f"(tbl {STUB_ID[tag]} {cq.lst(cq.s(m) for m in sorted(methods))} {cq.b(disc)})"
+# ---- Gallina printing -----------------------------------------------------------------------------------------
+# Elaborating string / number literals dominates the cost of a shard, so every string of the pools and every id is
+# defined once in the shard header and the cases refer to them by name (anything else is printed as a literal).
+def _all_strings():
+    out = set(COMMON) | set(ADD_NAMES) | set(FWD_SAFE) | set(SHADOW)
+    for pool in TYPE_POOL:
+        out |= set(pool)
+    for ms, _, _ in STUBS.values():
+        out |= set(ms)
+    for op in ADD_COUPLED + E1_LOOKUPS + E6_OPS + E2_ADDS:
+        out.add(op[1])
+    for c in _gen_tables():
+        out |= {op[1] for _, _, op in c["ops"] if len(op) > 1}
+    names = set(ADD_NAMES) | {n for reg in STD_INIT for n, _ in reg}
+    for n in names:
+        out |= {n, n.upper(), n.lower(), n.title()}
+    for s_ in list(out):
+        out |= set(_tails(s_))
+    return sorted(out)
 
 
-def _op_term(op):
+_SID = {s_: f"s_{k}" for k, s_ in enumerate(_all_strings())}
+_NMAX = 160
+
+
+def _S(text):
+    return _SID.get(text) or cq.s(text)
+
+
+def _N(n):
+    return f"k_{int(n)}" if 0 <= int(n) <= _NMAX else cq.nat(n)
+
+
+def _header():
+    lines = ["From Ropt Require Import Model.Registry Gen.Generated."]
+    lines += [f"Definition {name} : string := {cq.s(text)}." for text, name in _SID.items()]
+    lines += [f"Definition k_{n} : nat := {n}%nat." for n in range(_NMAX + 1)]
+    for tag, (methods, disc, exact) in STUBS.items():
+        lines.append(f"Definition st_{tag} (id : nat) : plugin := {'exa' if exact else 'tbl'} id "
+                     f"{cq.lst(_S(m) for m in methods)} {cq.b(disc)}.")
+    return "\n".join(lines)
+
+
+HEADER = _header()
+
+
+def _resolve(ops, idx):
+    """(spec, id) of the plug-in object registered by add operation idx."""
+    spec = ops[idx][2][2]
+    if spec[0] == "reuse":
+        return _resolve(ops, spec[1])
+    return spec, (100 if spec[0] == "stub" else 50) + idx
+
+
+def _plugin_term(spec, pid):
+    if spec[0] == "stub":
+        return f"(st_{spec[1]} {_N(pid)})"
+    return f"(B {_N(spec[1])} {_N(pid)})"
+
+
+def _op_term(ops, idx):
+    i, t, op = ops[idx]
     if op[0] == "add":
-        return f"(Add {cq.s(op[1])} {_plugin_term(op[1].upper())} {cq.b(op[2])})"
+        spec, pid = _resolve(ops, idx)
+        return f"oA {_N(i)} {_N(t)} {_S(op[1])} {_plugin_term(spec, pid)} {cq.b(op[3])}"
     if op[0] == "get":
-        return f"(Get {cq.s(op[1])})"
-    return f"(Sup {cq.s(op[1])})"
+        return f"oG {_N(i)} {_N(t)} {_S(op[1])}"
+    if op[0] == "sup":
+        return f"oS {_N(i)} {_N(t)} {_S(op[1])}"
+    if op[0] == "list":
+        return f"oL {_N(i)} {_N(t)}"
+    return f"oF {_N(i)} {_N(t)} {_S(op[1])}"
+
+
+def _listing_term(l):
+    return "LP " + cq.lst(f"P {_S(n)} {_N(i)}" for n, i in l)
 
 
 def _ans_term(a):
@@ -157,70 +480,167 @@ def _ans_term(a):
     if a[0] == "err":
         return "AErr"
     if a[0] == "plug":
-        return f"(APlug {cq.nat(a[1])})"
+        return f"APlug {_N(a[1])}"
     if a[0] == "bool":
-        return f"(ABool {cq.b(a[1])})"
-    return "(APlug 98%nat)"
+        return f"ABool {cq.b(a[1])}"
+    if a[0] == "list":
+        return f"AList ({_listing_term(a[1])})"
+    return "APlug k_98"
+
+
+def _std_listing():
+    return [[[n, BUILTIN_K[c]] for n, c in reg] for reg in STD_INIT]
 
 
 def coq_case(case, obs):
-    init = cq.lst(f"({cq.s(n)}, {BUILTIN.get(cls, 'tbl 99 [] true')})" for n, cls in obs["init"])
-    ops = cq.lst(f"({cq.nat(i)}, {_op_term(op)})" for i, op in case["ops"])
+    if obs["init"] == STD_INIT:
+        init = "std_init"
+    else:
+        init = cq.lst(cq.lst(f"({_S(n)}, B {_N(BUILTIN_K.get(c, UNKNOWN_K))} {_N(BUILTIN_K.get(c, UNKNOWN_K))})"
+                             for n, c in reg) for reg in obs["init"])
+    after = "std_listing" if obs["fresh_after"] == _std_listing() else cq.lst(_listing_term(l) for l in obs["fresh_after"])
+    ops = case["ops"]
+    ops_t = cq.lst(_op_term(ops, k) for k in range(len(ops)))
     ans = cq.lst(_ans_term(a) for a in obs["answers"])
-    final = cq.lst(cq.lst(cq.s(n) for n in names) for names in obs["final"])
-    return f"(Build_case {init} {cq.nat(case['managers'])} {ops} {ans} {final})"
+    cons = cq.lst("LK " + cq.lst(f"K {_N(i)} {_S(m)}" for i, m in c) for c in obs["consult"])
+    final = cq.lst("std_listing" if man == _std_listing() else cq.lst(_listing_term(l) for l in man) for man in obs["final"])
+    return f"(Build_case {init} {after} {_N(case['managers'])} {ops_t} {ans} {cons} {final})"
+
+
+# ---- the property text, read independently of the model ------------------------------------------------------
+class _Ref:
+    """Plain reading of the property: ordered name -> plug-in lists per manager and type; what a plug-in supports is
+    what the plug-in itself says (stubs: their table; built-ins: `says`, observed by asking the plug-in directly;
+    external: whatever a fresh manager resolves)."""
+
+    def __init__(self, case, obs):
+        self.says = obs["says"]
+        self.desc = {}
+        self.init = []
+        for reg in obs["init"]:
+            row = []
+            for n, c in reg:
+                k = BUILTIN_K.get(c, UNKNOWN_K)
+                self.desc[k] = ("builtin", k)
+                row.append((n, k))
+            self.init.append(row)
+        self.state = [[list(r) for r in self.init] for _ in range(case["managers"])]
+
+    def disc(self, pid):
+        kind, x = self.desc[pid]
+        return STUBS[x][1] if kind == "stub" else x != 0
+
+    def supp(self, pid, m):
+        kind, x = self.desc[pid]
+        if kind == "stub":
+            methods, _, exact = STUBS[x]
+            return (m if exact else m.lower()) in methods
+        if x == 0:
+            return self.lookup(self.init[0], m) is not None
+        return bool(self.says.get(str(x), {}).get(m, False))
+
+    def lookup(self, reg, m):
+        if "/" in m:
+            head, tail = m.split("/", 1)
+            for n, pid in reg:
+                if n == head.lower():
+                    return pid if self.supp(pid, tail) else None
+            return None
+        for _, pid in reg:
+            if self.disc(pid) and self.supp(pid, m):
+                return pid
+        return None
 
 
 def oracle(case, obs):
     """The property's own clauses evaluated on the implementation's answers (no model)."""
-    if obs["fresh_after"] != obs["init"]:
+    ref = _Ref(case, obs)
+    std = [[[n, k] for n, k in reg] for reg in ref.init]
+    if obs["fresh_after"] != std:
         return {"clause": "isolation", "detail": "a fresh manager created after the run differs from one created before"}
-    nm = case["managers"]
-    names = [[n for n, _ in obs["init"]] for _ in range(nm)]
-    ids = [{n: BUILTIN_ID.get(cls, 99) for n, cls in obs["init"]} for _ in range(nm)]
-    supported_now = [dict() for _ in range(nm)]
-    for (i, op), a in zip(case["ops"], obs["answers"]):
+    ops = case["ops"]
+    for idx, ((i, t, op), a, seen) in enumerate(zip(ops, obs["answers"], obs["consult"])):
+        reg = ref.state[i][t]
+        here = {pid for _, pid in reg}
         if op[0] == "add":
+            spec, pid = _resolve(ops, idx)
+            ref.desc[pid] = (spec[0], spec[1])
             low = op[1].lower()
-            if low in names[i]:
+            if any(n == low for n, _ in reg):
                 if a != ["err"]:
-                    return {"clause": "duplicate-rejected", "detail": [i, op, a]}
+                    return {"clause": "duplicate-rejected", "detail": [idx, i, t, op, a]}
             else:
                 if a != ["ok"]:
-                    return {"clause": "registration-accepted", "detail": [i, op, a]}
-                names[i] = [low] + names[i] if op[2] else names[i] + [low]
-                ids[i][low] = STUB_ID[op[1].upper()]
-            supported_now[i] = {}
-        elif op[0] == "get":
-            if a[0] == "plug" and "/" not in op[1] and a[1] in (0, 12):
-                return {"clause": "undiscoverable-returned-for-bare-name", "detail": [i, op, a]}
-            if a[0] == "plug" and a[1] not in ids[i].values():
-                return {"clause": "isolation: lookup returned a plug-in that is not registered in this manager", "detail": [i, op, a]}
-            if a[0] == "plug" and "/" in op[1]:
-                head = op[1].split("/", 1)[0].lower()
-                if ids[i].get(head) != a[1]:
-                    return {"clause": "qualified-consults-other-plugin", "detail": [i, op, a]}
-            prev = supported_now[i].get(op[1])
-            if prev is not None and prev != (a[0] == "plug"):
-                return {"clause": "is_supported-iff-get", "detail": [i, op, a]}
-            supported_now[i][op[1]] = a[0] == "plug"
+                    return {"clause": "registration-accepted", "detail": [idx, i, t, op, a]}
+                if op[3]:
+                    reg.insert(0, (low, pid))
+                else:
+                    reg.append((low, pid))
+            continue
+        if op[0] == "list":
+            if a != ["list", [[n, p] for n, p in reg]]:
+                return {"clause": "lookup-order-or-isolation", "detail": {"op": idx, "expected": reg, "got": a}}
+            continue
+        if op[0] == "fwd":
+            want = ["ok"] if ref.lookup(ref.init[0], op[1].split("/", 1)[1]) is not None else ["err"]
+            if a != want:
+                return {"clause": "external-forwarding (fresh manager must not see registrations)", "detail": [idx, op, a, want]}
+            if seen:
+                return {"clause": "isolation: the external optimizer consulted a registered stub", "detail": [idx, op, seen]}
+            continue
+        m = op[1]
+        qualified = "/" in m
+        want = ref.lookup(reg, m)
+        # which plug-ins were asked
+        if qualified:
+            head, tail = m.split("/", 1)
+            named = next((pid for n, pid in reg if n == head.lower()), None)
+            for pid, arg in seen:
+                if pid != named or arg != tail:
+                    return {"clause": "qualified-consults-other-plugin", "detail": [idx, i, t, op, seen]}
+        else:
+            named = None
+            for pid, arg in seen:
+                if pid not in here:
+                    return {"clause": "isolation: a plug-in that is not registered in this manager and type was consulted",
+                            "detail": [idx, i, t, op, seen]}
+                if arg != m:
+                    return {"clause": "method-not-passed-verbatim", "detail": [idx, i, t, op, seen]}
+        if op[0] == "get":
+            if a[0] == "plug":
+                if a[1] not in here:
+                    return {"clause": "isolation: lookup returned a plug-in that is not registered in this manager and type",
+                            "detail": [idx, i, t, op, a]}
+                if not qualified and not ref.disc(a[1]):
+                    return {"clause": "undiscoverable-returned-for-bare-name", "detail": [idx, i, t, op, a]}
+                if qualified and a[1] != named:
+                    return {"clause": "qualified-consults-other-plugin", "detail": [idx, i, t, op, a]}
+                if want is None:
+                    return {"clause": "unsupported-request-did-not-raise-ConfigError", "detail": [idx, i, t, op, a]}
+                if want != a[1]:
+                    return {"clause": "bare-name-not-first-discoverable-in-lookup-order", "detail": [idx, i, t, op, a, want]}
+            elif a == ["err"]:
+                if want is not None:
+                    return {"clause": "supported-request-raised-ConfigError", "detail": [idx, i, t, op, a, want]}
+            else:
+                return {"clause": "get_plugin-unexpected-answer", "detail": [idx, op, a]}
         else:
             if a[0] != "bool":
-                return {"clause": "is_supported-not-bool", "detail": [i, op, a]}
-            if a[1] and "/" in op[1] and op[1].split("/", 1)[0].lower() not in ids[i]:
-                return {"clause": "isolation: is_supported true for a plug-in name not registered in this manager", "detail": [i, op, a]}
-            prev = supported_now[i].get(op[1])
-            if prev is not None and prev != a[1]:
-                return {"clause": "is_supported-iff-get", "detail": [i, op, a]}
-            supported_now[i][op[1]] = a[1]
-    if obs["final"] != names:
-        return {"clause": "lookup-order-or-isolation", "detail": {"expected": names, "got": obs["final"]}}
+                return {"clause": "is_supported-not-bool", "detail": [idx, i, t, op, a]}
+            if a[1] != (want is not None):
+                return {"clause": "is_supported-iff-get", "detail": [idx, i, t, op, a, want]}
+    got = [[[(n, p) for n, p in l] for l in man] for man in obs["final"]]
+    if got != ref.state:
+        return {"clause": "lookup-order-or-isolation", "detail": {"expected": ref.state, "got": obs["final"]}}
     return None
 
 
+# ---- evidence --------------------------------------------------------------------------------------------------
 def nontrivial(case, obs):
+    if case.get("stream", "").startswith("E4"):
+        return True
     added = False
-    for (i, op), a in zip(case["ops"], obs["answers"]):
+    for (i, t, op), a in zip(case["ops"], obs["answers"]):
         if op[0] == "add" and a == ["ok"]:
             added = True
         elif op[0] != "add" and added:
@@ -229,42 +649,105 @@ def nontrivial(case, obs):
 
 
 def features(case, obs):
+    ops = case["ops"]
     kinds = [a[0] for a in obs["answers"]]
-    return {"type": case["type"], "len": len(case["ops"]), "managers": case["managers"],
-            "errors": min(3, kinds.count("err"))}
+    n = len(ops)
+    f = {"stream": case.get("stream", "corpus"), "managers": case["managers"],
+         "len": n if n <= 4 else "5-8" if n <= 8 else "9-16" if n <= 16 else "17+",
+         "errors": min(3, kinds.count("err")),
+         "types_in_case": len({t for _, t, _ in ops}),
+         "managers_addressed": len({i for i, _, _ in ops})}
+    for t in sorted({t for _, t, _ in ops}):
+        f[f"type_{TYPES[t]}"] = True
+    lookups = [op[1] for _, _, op in ops if op[0] in ("get", "sup")]
+    f["has_multi_slash"] = any(m.count("/") > 1 for m in lookups)
+    f["has_empty_part"] = any(m == "" or m.startswith("/") or m.endswith("/") or "//" in m for m in lookups)
+    f["has_external_request"] = any(m.lower().startswith("external/") for m in lookups)
+    f["has_bare_default"] = "default" in lookups
+    f["has_fwd"] = any(op[0] == "fwd" for _, _, op in ops)
+    f["has_list"] = any(op[0] == "list" for _, _, op in ops)
+    f["has_case_sensitive_stub"] = any(op[0] == "add" and op[2] == ["stub", "C"] for _, _, op in ops)
+    f["has_builtin_instance"] = any(op[0] == "add" and op[2][0] == "builtin" for _, _, op in ops)
+    f["has_reused_object"] = any(op[0] == "add" and op[2][0] == "reuse" for _, _, op in ops)
+    rej = [(op, a) for (_, _, op), a in zip(ops, obs["answers"]) if op[0] == "add" and a == ["err"]]
+    f["rejected_adds"] = min(3, len(rej))
+    f["rejected_prioritised"] = any(op[3] for op, _ in rej)
+    return f
 
 
 def known_signature(case, obs, violation):
     return None
 
 
+def _drop(case, k):
+    """the case without operation k (re-used objects re-pointed)"""
+    ops = [[i, t, [x if not isinstance(x, list) else list(x) for x in op]] for i, t, op in case["ops"]]
+    gone = ops[k][2]
+    out = []
+    for j, (i, t, op) in enumerate(ops):
+        if j == k:
+            continue
+        if op[0] == "add" and op[2][0] == "reuse":
+            if op[2][1] == k:
+                if gone[0] != "add":
+                    return None
+                op[2] = list(gone[2])
+            elif op[2][1] > k:
+                op[2] = ["reuse", op[2][1] - 1]
+        out.append([i, t, op])
+    for j, (i, t, op) in enumerate(out):
+        if op[0] == "add" and op[2][0] == "reuse" and (op[2][1] >= j or out[op[2][1]][2][0] != "add"):
+            return None
+    return {**case, "ops": out}
+
+
 def shrink(case):
-    ops = case["ops"]
-    for k in range(len(ops)):
-        yield {**case, "ops": ops[:k] + ops[k + 1:]}
+    for k in range(len(case["ops"])):
+        c = _drop(case, k)
+        if c is not None:
+            yield c
+    if case["managers"] > 1 and all(i < case["managers"] - 1 for i, _, _ in case["ops"]):
+        yield {**case, "managers": case["managers"] - 1}
 
 
 def search(rng, case):
     if case is None:
         yield from itertools.islice(gen_cases("quick", rng), 0, 1500)
         return
+    yield from shrink(case)
     ops = case["ops"]
-    for k in range(len(ops)):
-        yield {**case, "ops": ops[:k] + ops[k + 1:]}
+    ts = sorted({t for _, t, _ in ops}) or [0]
     for _ in range(300):
-        extra = [[rng.randrange(case["managers"]), list(rng.choice(ADD_OPS + OPT_LOOKUPS))] for _ in range(2)]
-        yield {**case, "ops": ops + extra}
+        extra = []
+        for _ in range(2):
+            t = rng.choice(ts)
+            m = rng.choice(COMMON + TYPE_POOL[t])
+            op = rng.choice([["get", m], ["sup", m], ["list"], _rand_add(rng, t, [])])
+            extra.append([rng.randrange(case["managers"]), t, op])
+        if len(ops) + 2 <= MAX_OPS:
+            yield {**case, "ops": ops + extra}
+
 
 MANIFEST = {
-    "level_text": ("Machine-checked Coq proof, for every operation sequence and registry, that the executable model of PluginManager "
-                   "(Model/Registry.v) keeps names distinct up to case, rejects duplicates (also prioritised), orders lookups "
-                   "prioritised-first, resolves 'plugin/method' only through the named plug-in for every casing, returns for a bare "
-                   "name the first discoverable supporting plug-in (never a non-discoverable one), has is_supported <=> get succeeds, and "
-                   "isolates managers; the model is tied to the code on every run by an in-Coq correspondence over all operation "
-                   "sequences up to length 3 (quick) / 4 (thorough) on real PluginManager objects, with method tables regenerated from source."),
+    "level_text": ("Machine-checked Coq proof, for every operation sequence, registry, manager and universe of managers, that the "
+                   "executable model of PluginManager (Model/Registry.v: Python-dict operations of add_plugin, lower-casing at "
+                   "add and at lookup, split at the first slash, one registry per plug-in type, the external plug-in's recursion "
+                   "into a fresh manager) keeps names distinct and lower-case, rejects duplicates up to case (also prioritised) "
+                   "exactly then and without any change of content or order, orders lookups prioritised-first, resolves "
+                   "'plugin/method' only through the named plug-in for every casing (frame + consultation trace), returns for a "
+                   "bare name the first discoverable supporting plug-in (never a non-discoverable one), has is_supported <=> "
+                   "get_plugin succeeds in every reachable state of every manager and type together with an order-independent "
+                   "declarative characterisation, makes every rejected operation and every lookup an erasable no-op, and isolates "
+                   "managers and plug-in types over whole interleaved sequences (each component answers as if run alone); the "
+                   "model is tied to the code on every run by an in-Coq correspondence over all operation sequences up to length "
+                   "3 (quick) / 4 (thorough) and structured/sampled longer ones on real PluginManager objects of every plug-in "
+                   "type, with the built-in method tables regenerated from source."),
     "level_note": ("Trusted: Coq kernel + VM; the translator copying the built-in method tables; the Python driver that runs the real "
-                   "PluginManager and prints answers as Gallina literals; stub plug-ins are table-driven; entry-point order is observed. "
+                   "PluginManager and prints answers as Gallina literals; stub plug-ins are table-driven; entry-point order is observed; "
+                   "str.lower is modelled on printable ASCII only (non-ASCII names are outside the model); KeyError for an unknown "
+                   "plug-in type is modelled (ABad) but not driven.  The fuel of the external plug-in's recursion is proved irrelevant "
+                   "(C19_fuel_irrelevant) under the checked hypothesis that external plug-ins are not discoverable.  "
                    "All theorems print 'Closed under the global context'."),
-    "technique": "Coq proof (induction over operation sequences on an executable Gallina model) + in-Coq differential correspondence with the real PluginManager",
+    "technique": "Coq proof (induction over operation sequences on an executable Gallina model, generic indexed-family lemmas for isolation) + in-Coq differential correspondence with the real PluginManager + independent Python reading of the property text",
     "design_ref": "DESIGN.md section 4, C19",
 }
